@@ -53,6 +53,15 @@ class Oracle(object):
 
 
 # ====================================================================================== C20
+# documented defaults of a Config (docs/config.md; README "config" section)
+CONFIG_DEFAULTS = {
+    'max_error': 1 / 2 ** 63, 'n_word_max': 64, 'overflow': 'saturate', 'rounding': 'trunc', 'shifting': 'expand',
+    'op_method': 'raw', 'op_input_size': 'same', 'op_out': None, 'op_out_like': None, 'op_sizing': 'optimal',
+    'const_op_sizing': 'same', 'array_output_type': 'fxp', 'array_op_out': None, 'array_op_out_like': None,
+    'array_op_method': 'repr', 'dtype_notation': 'fxp', 'bin_prefix': None, 'hex_prefix': '0x',
+}
+
+
 class C20(Oracle):
     prop = 'C20'
     IGNORE = ('cbs',)
@@ -190,6 +199,23 @@ class C20(Oracle):
                             {'config': ci, 'field': d[0][0] if d else None,
                              'before': short(d[0][1]) if d else None, 'after': short(d[0][2]) if d else None}, culprit)
                 return
+        # -- no global template in force, no configuration handed over: the new object has the
+        #    documented defaults (docs/config.md), overridden by the keywords of the call only - whatever
+        #    templates were in force earlier in the life of the process
+        if st.op['op'] == 'new' and st.outcome == 'ok' and isinstance(st.ret, Fxp) and st.depth == 0 and \
+                st.extra.get('tpl') is None and st.extra.get('cfg_tpl') is None and 'cfg' not in st.extra:
+            want_cfg = dict(CONFIG_DEFAULTS)
+            for k_, v_ in (st.op.get('kw') or {}).items():
+                if k_ in want_cfg:
+                    want_cfg[k_] = v_
+            for f_ in sorted(want_cfg):
+                got_ = getattr(st.ret.config, '_' + f_, None)
+                if not same(got_, want_cfg[f_]):
+                    w.violation('C20', 'global-template', st,
+                                {'what': 'object built with no template in force does not have the default configuration',
+                                 'field': f_, 'got': repr(got_), 'default_or_keyword': repr(want_cfg[f_])}, culprit)
+                    return
+            w.bump('plain_constructor_defaults_checked')
         # -- process-global template
         want = None if w.template is None else w.slots[w.template].obj
         wantc = None if w.cfg_template is None else w.configs[w.cfg_template]
@@ -692,7 +718,9 @@ class C04(Oracle):
             # inexactness are certain; such DIRECT writes are judged when they arrive as integers
             # (Python ints, integer arrays, raw codes), never under wrap.
             sat = cfg['overflow'] == 'saturate'
-            big_ok = sat and sto.arith is None and (sto.raw or self.integer_carrier(st))
+            big_ok = sat and sto.arith is None and (sto.raw or self.integer_carrier(st) or sto.src is not None)
+            # (conversions from another object - resize, equal, x(y), Fxp(y, ...), x[i] = y - re-scale
+            #  integer codes: their overflow is as certain as that of a Python integer)
             # (arithmetic is NOT included: operands are scaled in int64 and can wrap there silently -
             #  seen: 2**43 * 2**34 -> 0 in a subtraction with sizing 'same' - which is C19's subject)
             if sto.arith is not None and not in_exact_float_domain(vals[1], nf, False):
@@ -1006,9 +1034,14 @@ class C10(Oracle):
         sshape = tuple(np.shape(a))
         sl = np.asarray(a, dtype=object).ravel().tolist()
         shift = fmt[2] - snf
-        if any(abs(c) * (2 ** shift if shift >= 0 else 1) >= (1 << 62) for c in sl) or abs(shift) > 200:
+        if abs(shift) > 62:
             w.bump('c10_hop_out_of_domain')
             return
+        if any(abs(c) * (2 ** shift if shift >= 0 else 1) >= (1 << 62) for c in sl):
+            # C10 quantifies over FORMAT pairs; the re-scaled code may well need more than 64 bits
+            # (it then overflows the destination for certain: the bound under saturate, the low
+            #  n_word bits under wrap)
+            w.bump('c10_hop_rescaled_code_beyond_62_bits')
         exp = [Q.quant(Q.unscale(c, snf), fmt, rounding, ovf)[0] for c in sl]
         got = np.asarray(tgt.val)
         if sto.region is not None:
